@@ -263,7 +263,7 @@ def Items.shape : Items → Shape
 end
 
 def Shape.cls (s : Shape) : String :=
-  if s.badAttrName then "attr-name-not-identifier"
+  if s.badAttrName && Generated.Recon.attrNamesRaw then "attr-name-not-identifier"
   else if s.soleItemNotPrim then "sole-item-record-or-extant"
   else if s.attrBodySoleSlot then "attr-body-sole-slot"
   else if s.bareAttrKey then "bare-attr-slot-key"
